@@ -113,6 +113,16 @@ def eq(a, b):
 def run(ctx):
     runner.prove(ctx, MODULE, THEOREMS, FILES)
     pairs = valcases.schema_batch(ctx, ctx.n(120, 900), customs=False)
+    # fixed floats whose product with 10**precision leaves the float range; tiny and huge magnitudes
+    for v in (1e300, -1e300, 1e307, 1.7e308, float("inf"), 5e-324, 1e-300):
+        for mk in (lambda v=v: schema.float(v).precision(15), lambda v=v: schema.float(v).precision(2), lambda v=v: schema.float(v),
+                   lambda v=v: schema.dict({"x": schema.float(v).precision(3)}), lambda v=v: schema.list([schema.float(v).precision(1), ...])):
+            try:
+                sc = mk()
+            except Exception:  # noqa: BLE001
+                continue
+            from d42.declaration.types import DictSchema, ListSchema
+            pairs.append((sc, {"x": v} if isinstance(sc, DictSchema) else ([v] if isinstance(sc, ListSchema) else v)))
     # wide unions / wide dicts / long element lists (with a witness only the LAST alternative / key / element decides)
     for n in (8, 9, 10, 12, 25):
         pairs += [(schema.any(*[schema.int(i) for i in range(n)]), n - 1), (schema.any(*[schema.str("v%d" % i) for i in range(n)]), "v%d" % (n - 1)),
@@ -171,7 +181,11 @@ def run(ctx):
                             break
                 corr(sub, v)
         # schema == value  <=>  value validates
-        for x in [w] + gen_value.perturb(w, ctx.rnd)[:8] + ctx.rnd.sample(gen_value.zoo(), 4):
+        try:
+            bnd = valcases.boundary_values(s, w, 16)
+        except Exception:  # noqa: BLE001
+            bnd = []
+        for x in [w] + bnd + gen_value.perturb(w, ctx.rnd)[:8] + ctx.rnd.sample(gen_value.zoo(), 4):
             if x is Nil or hasattr(x, "props"):
                 continue
             ctx.count("eq_value_probes")
